@@ -44,6 +44,8 @@ def detector_spaces(tier: str, chains: bool = True) -> Iterator[Tuple[str, str, 
     yield from emit("rekey-to", "direct", spaces.layered(full, _addr_small("RekeyTo"), tier, chains=chains, l2_top_alpha=top, l2_size=None if q else 3))
     sh = A.shuffled(["txn RekeyTo", Z, "=="]) + A.shuffled(["txn Fee", "int 1000", ">"])
     yield from emit("rekey-to", "shuffle", spaces.layered(sh, sh[:2], tier, chains=False, l2_size=2, l3=False, max_subs=1))
+    # loops that really iterate (counter conditions; soundness only)
+    yield from emit("rekey-to", "shuffle", spaces.counted_loops(_addr_small("RekeyTo")[:3], tier))
     # can-close-account / can-close-asset
     for det, field, ty in (("can-close-account", "CloseRemainderTo", "pay"), ("can-close-asset", "AssetCloseTo", "axfer")):
         small = [
@@ -113,3 +115,13 @@ def detector_spaces(tier: str, chains: bool = True) -> Iterator[Tuple[str, str, 
         "group-size-check", "direct",
         spaces.layered(full[:8], small[:2], tier, chains=False, kinds=kinds, pad=("int 0", "gtxns Fee", "pop"), l2_size=2, l3=False, max_subs=1),
     )
+    # several reads in one block: a relative read before / after the absolute one, and two absolute ones
+    for pad in (("txn GroupIndex", "int 1", "-", "gtxns Fee", "pop", "int 0", "gtxns Fee", "pop"),
+                ("int 0", "gtxns Fee", "pop", "txn GroupIndex", "int 1", "-", "gtxns Fee", "pop"),
+                ("txn GroupIndex", "gtxns Fee", "pop", "gtxn 1 Fee", "pop"),
+                ("txn GroupIndex", "int 1", "+", "gtxns Fee", "int 2", "gtxns Fee", "+", "pop")):
+        yield from emit(
+            "group-size-check", "direct",
+            spaces.layered(full[:4], small[:2], tier, chains=False, kinds=kinds, pad=pad, l2_size=2, l3=False, max_subs=1),
+        )
+    yield from emit("group-size-check", "shuffle", spaces.counted_loops(small[:2], tier, kinds=kinds, pad=("gtxn 1 Fee", "pop")))
